@@ -14,8 +14,11 @@ META = dict(
          'chains) is run on every 1-/2-tuple of strings of length <=3 and every 3-tuple of length <=2 over {a,SP,LF} (thorough: {a,b,SP,LF}), every pair of length <=2 '
          'over {a,SP,TAB,LF} for all 12 tokenizer x comparison stages and two refinement chains, plus seeded random line texts (CRLF, missing '
          'final newline, empty inputs, repeated lines); each diff is computed twice in-process (fresh RandomState seed each) and, thorough, '
-         'again in a second process; TLC judges every record.  Exhaustive on the small domain, sampled beyond: exploration.',
-    note='Inputs are bounded byte strings; numeric limits (4 GiB, u32 offsets) are not reached.  With mixed comparisons in a refinement chain '
+         'again in a second process; TLC judges every record.  A LARGE-INPUT class (30 quick / 300 thorough seeded cases: 2-3 inputs of 2-4 blocks of '
+         '600-2000 unique lines with permuted, duplicated and deleted blocks, by_line and word tokenizers) exercises the histogram/LCS path with '
+         'thousands of shared unique tokens and reorderings; it is judged on compact records (lengths, ranges, slice hashes).  Exhaustive on '
+         'the small domain, sampled beyond: exploration.',
+    note='Inputs are bounded byte strings (up to ~60 KB / 8 000 lines in the large-input class); numeric limits (4 GiB, u32 offsets) are not reached.  For the large-input class Matching-equality is hash-based (equal lengths and equal 31-bit FNV-1a slice hashes), because TLC cannot judge byte-level records of that size.  With mixed comparisons in a refinement chain '
          'Matching hunks are judged under the weakest comparison of the chain (lattice checked by TLC).  Trusted: TLC, the recorder in '
          'harness/jjconf/src/bin/text/diff.rs (it only calls jj and logs).',
     design='4 C03',
@@ -26,6 +29,8 @@ LEVEL = META["category"]
 
 def nontrivial(r):
     # a diff of >= 2 inputs whose hunk list has both a Matching and a Different hunk
+    if r.get("op") == "bigdiff":
+        return {h["k"] for h in r["h1"]} == {0, 1}
     if r.get("op") != "diff" or len(r["inp"]) < 2:
         return False
     kinds = {h["k"] for h in r["h1"]}
@@ -42,14 +47,14 @@ def run(ctx):
     # 2. binding I->S: the real ContentDiff, judged by TLC
     trace = ctx.path("c03.ndjson")
     ctx.harness("text", ["diff", "--out", trace, "--seed", ctx.seed, "--tier", ctx.tier,
-                          "--random", ctx.q(1500, 12000)])
+                          "--random", ctx.q(1500, 12000), "--big", ctx.q(30, 300)])
     if ctx.thorough:
         # the same diffs recomputed in a second process (new process-wide hash keys)
         trace2 = ctx.path("c03b.ndjson")
         ctx.harness("text", ["diff-again", "--inp", trace, "--out", trace2])
         trace = trace2
     j = textlib.judge(ctx, "Trace_Diff", trace, nontrivial_fn=nontrivial, chunk=ctx.q(5400, 6000), par=8,
-                      ops={"diff", "panic"})
+                      ops={"diff", "bigdiff", "panic"})
     recs = j["records"]
     doms = {r["kind"]: r for r in recs if r.get("op") == "domain"}
     s3, s2 = 85, (21 if ctx.thorough else 13)
@@ -58,7 +63,9 @@ def run(ctx):
     want_b = nb * nb * 18 + (85 * 85 * 4 if ctx.thorough else 0)
     if doms["A"]["count"] != want_a or doms["B"]["count"] != want_b:
         raise vf.ToolError("harness domain is not the stated domain: %s (want %d, %d)" % (doms, want_a, want_b))
-    if ctx.thorough and any("h3" not in r for r in recs if r.get("op") == "diff"):
+    if doms["big"]["count"] != ctx.q(30, 300) or sum(1 for r in recs if r.get("op") == "bigdiff") != ctx.q(30, 300):
+        raise vf.ToolError("large-input class incomplete: %s" % doms["big"])
+    if ctx.thorough and any("h3" not in r for r in recs if r.get("op") in ("diff", "bigdiff")):
         raise vf.ToolError("second-process ranges missing")
     ctx.cov["exhaustive"] = False
     ctx.cov["exhaustive_core"] = ("%d diffs: all 1-/2-tuples of strings of length <=3 over {a,b,SP,LF} and 3-tuples of length <=2 over %s x "
@@ -66,15 +73,33 @@ def run(ctx):
                                   "+ 2 refinement chains x 3 comparisons%s" % (
                                       want_a, "{a,b,SP,LF}" if ctx.thorough else "{a,SP,LF}", want_b, "{a,SP,TAB,LF,CR,NUL}" if ctx.thorough else "{a,SP,TAB,LF}",
                                       "; pairs of length <=3 over {a,SP,LF,CR} x 4 whitespace-insensitive stages" if ctx.thorough else ""))
+    big = [r for r in recs if r.get("op") == "bigdiff"]
+    ctx.cov["large_input_class"] = {
+        "cases": len(big),
+        "what": "seeded line-structured inputs of 2-4 blocks of 600-2000 unique lines, the other 1-2 inputs with permuted / duplicated / "
+                "deleted blocks and a few line edits; by_line and for_tokenizer (line; word+nonword refinement); the record carries input "
+                "lengths and per hunk kind, ranges and a 31-bit FNV-1a hash of every slice, for two in-process runs%s" % (
+                    " and a second process" if ctx.thorough else ""),
+        "judged": "contiguity from 0 to each length, alternation, no all-empty hunk, run1 = run2%s; Matching-equality is HASH-BASED for "
+                  "this class (equal slice lengths and equal slice hashes), byte-exact only for the small classes" % (
+                      " = other process" if ctx.thorough else ""),
+        "min_max_input_bytes": [min(min(r["lens"]) for r in big), max(max(r["lens"]) for r in big)] if big else [],
+        "max_hunks": max(len(r["h1"]) for r in big) if big else 0,
+        "reordered_blocks": sum(1 for r in big if any(o != sorted(o) for o in r["shape"]["orders"])),
+    }
     ctx.cov["rule"] = ("records = one real ContentDiff each (ranges of two runs%s + contents); generated exhaustively on the small domains "
-                       "above and randomly (seeded) for line texts of up to %d lines; non-trivial = >= 2 inputs and both a Matching and a "
+                       "above and randomly (seeded) for line texts of up to %d lines, plus the large-input class (compact hash records, see "
+                       "large_input_class); non-trivial = >= 2 inputs and both a Matching and a "
                        "Different hunk; distinct by full record" % (" + a second process" if ctx.thorough else "", ctx.q(12, 40)))
+    for r in big:
+        if 4 <= len(r["h1"]) <= 12:
+            ctx.sample({k: r[k] for k in ("op", "api", "stages", "shape", "lens", "h1")}, 1)
     for r in recs:
-        if nontrivial(r) and len(r["inp"]) == 3 and len(r["h1"]) >= 4:
-            ctx.sample({k: r[k] for k in ("api", "stages", "cmp", "inp", "h1")}, 3)
+        if r.get("op") == "diff" and nontrivial(r) and len(r["inp"]) == 3 and len(r["h1"]) >= 4:
+            ctx.sample({k: r[k] for k in ("api", "stages", "cmp", "inp", "h1")}, 4)
     for r in recs:
-        if nontrivial(r) and r["cmp"] != "exact" and len(r["h1"]) >= 3:
-            ctx.sample({k: r[k] for k in ("api", "stages", "cmp", "inp", "h1")}, 5)
+        if r.get("op") == "diff" and nontrivial(r) and r["cmp"] != "exact" and len(r["h1"]) >= 3:
+            ctx.sample({k: r[k] for k in ("api", "stages", "cmp", "inp", "h1")}, 6)
     ctx.assumptions += ["inputs are bounded byte strings (lengths far below u32/usize limits)",
                         "TLC evaluates the contracts of spec/Diff.tla correctly",
                         "run-to-run determinism is observed on two in-process runs (fresh RandomState per ContentDiff) and, thorough, one more process"]
